@@ -181,6 +181,7 @@ func ruleDataMatrixEncoder(c *Ctx) {
 				if cv, ok := v.(*ssa.Convert); ok {
 					v = cv.X
 				}
+				n.StripNarrow = "uint8"
 				checkCases(c, R5, "datamatrix.addPadding/value", st.Pos(), n.valueCases(fn, h.Succs[0], v, 0), []edgeSpec{
 					{"129 + (149*(q+1))%253 + 1", "129 + (149*(q+1))%253 + 1 <= 254"},
 					{"129 + (149*(q+1))%253 + 1 - 254", "129 + (149*(q+1))%253 + 1 > 254"}})
@@ -194,18 +195,15 @@ func ruleDataMatrixEncoder(c *Ctx) {
 				if hdr.Dominates(s.call.Block()) {
 					n.Bind[dphi] = "cur"
 					c.expectCond(R5, "datamatrix.addPadding/while", s.call.Pos(), n.EdgeCond(hdr, hdr.Succs[0]), "len(cur) < cap")
-					cv, ok := s.elems[0].(*ssa.Convert)
-					var tphi *ssa.Phi
-					if ok {
-						tphi, _ = cv.X.(*ssa.Phi)
+					v := s.elems[0]
+					if cv, ok := v.(*ssa.Convert); ok {
+						v = cv.X
 					}
-					if tphi == nil {
-						c.Undecided(R5, "datamatrix.addPadding/value", s.call.Pos(), "pad value is not the two-way (wrap / no wrap) choice")
-					} else {
-						checkPhiDef(c, R5, "datamatrix.addPadding/value", n, fn, hdr.Succs[0], tphi, []edgeSpec{
-							{"129 + (149*(len(cur)+1))%253 + 1", "129 + (149*(len(cur)+1))%253 + 1 <= 254"},
-							{"129 + (149*(len(cur)+1))%253 + 1 - 254", "129 + (149*(len(cur)+1))%253 + 1 > 254"}})
-					}
+					// the two-way (wrap / no wrap) choice, computed in place or by a helper
+					n.StripNarrow = "uint8"
+					checkCases(c, R5, "datamatrix.addPadding/value", s.call.Pos(), n.valueCases(fn, hdr.Succs[0], v, 0), []edgeSpec{
+						{"129 + (149*(len(cur)+1))%253 + 1", "129 + (149*(len(cur)+1))%253 + 1 <= 254"},
+						{"129 + (149*(len(cur)+1))%253 + 1 - 254", "129 + (149*(len(cur)+1))%253 + 1 > 254"}})
 					delete(n.Bind, dphi)
 				} else {
 					c.expectPoly(R5, "datamatrix.addPadding/first-pad", s.call.Pos(), n, s.elems[0], "129")
@@ -623,8 +621,29 @@ func ruleDataMatrixEncoder(c *Ctx) {
 			c.Undecided(R3, "datamatrix.Set/occupied", fn.Pos(), "expected one Occupied(row, col) call")
 		} else {
 			a := occ[0].Common().Args
-			rp, ok1 := a[1].(*ssa.Phi)
-			cp, ok2 := a[2].(*ssa.Phi)
+			F, ra, ca := fn, a[1], a[2]
+			// the wrap may be computed by a loop-free helper returning (row, col): analyse it in the
+			// context of this call
+			if e1, ok := ra.(*ssa.Extract); ok {
+				if e2, ok := ca.(*ssa.Extract); ok && e1.Tuple == e2.Tuple {
+					if call, ok := e1.Tuple.(*ssa.Call); ok {
+						if g := calleeOf(call); g != nil && pureLoopFreeAllowCalls(g) && len(returnsOf(g)) == 1 {
+							ga := call.Common().Args
+							names := make([]string, len(ga))
+							for i, x := range ga {
+								names[i] = n.Norm(x).String()
+							}
+							n.BindParams(g, names...)
+							bindCalls(n, c.P, g, dims, nil)
+							ret := returnsOf(g)[0]
+							F, ra, ca = g, ret.Results[e1.Index], ret.Results[e2.Index]
+							c.Fn(c.P.FuncName(g))
+						}
+					}
+				}
+			}
+			rp, ok1 := ra.(*ssa.Phi)
+			cp, ok2 := ca.(*ssa.Phi)
 			if !ok1 || !ok2 {
 				c.Undecided(R3, "datamatrix.Set/wrap", occ[0].Pos(), "wrapped row/col are not two-stage choices")
 			} else {
@@ -643,13 +662,14 @@ func ruleDataMatrixEncoder(c *Ctx) {
 				if r1 == nil || c1 == nil {
 					c.Undecided(R3, "datamatrix.Set/wrap", occ[0].Pos(), "first wrap stage not found")
 				} else {
-					checkPhiDef(c, R3, "datamatrix.Set/wrap-row-stage1", n, fn, nil, r1, []edgeSpec{{"row", "row >= 0"}, {"row + nrow", "row < 0"}})
-					checkPhiDef(c, R3, "datamatrix.Set/wrap-col-stage1", n, fn, nil, c1, []edgeSpec{{"col", "row >= 0"}, {"col + 4 - (nrow+4)%8", "row < 0"}})
+					checkPhiDef(c, R3, "datamatrix.Set/wrap-row-stage1", n, F, nil, r1, []edgeSpec{{"row", "row >= 0"}, {"row + nrow", "row < 0"}})
+					checkPhiDef(c, R3, "datamatrix.Set/wrap-col-stage1", n, F, nil, c1, []edgeSpec{{"col", "row >= 0"}, {"col + 4 - (nrow+4)%8", "row < 0"}})
 					n.Bind[r1], n.Bind[c1] = "r1", "c1"
-					checkPhiDef(c, R3, "datamatrix.Set/wrap-row-stage2", n, fn, r1.Block(), rp, []edgeSpec{{"r1", "c1 >= 0"}, {"r1 + 4 - (ncol+4)%8", "c1 < 0"}})
-					checkPhiDef(c, R3, "datamatrix.Set/wrap-col-stage2", n, fn, r1.Block(), cp, []edgeSpec{{"c1", "c1 >= 0"}, {"c1 + ncol", "c1 < 0"}})
+					checkPhiDef(c, R3, "datamatrix.Set/wrap-row-stage2", n, F, r1.Block(), rp, []edgeSpec{{"r1", "c1 >= 0"}, {"r1 + 4 - (ncol+4)%8", "c1 < 0"}})
+					checkPhiDef(c, R3, "datamatrix.Set/wrap-col-stage2", n, F, r1.Block(), cp, []edgeSpec{{"c1", "c1 >= 0"}, {"c1 + ncol", "c1 < 0"}})
 				}
 				n.Bind[rp], n.Bind[cp] = "R", "C"
+				n.Bind[a[1]], n.Bind[a[2]] = "R", "C"
 				k := 0
 				for _, call := range callsTo(fn, c.P.Func("utils.(*BitList).SetBit")) {
 					k++
